@@ -262,13 +262,42 @@ def run_seed(seed_dir: Path, prop: str) -> dict:
         shutil.rmtree(tmp, ignore_errors=True)
 
 
+def refactor_variants() -> list[Path]:
+    """Behaviour-preserving restructurings written by independent agents (DESIGN 12.4): every check runs all of them."""
+    base = VERIF / "refactors"
+    return [d for d in sorted(base.iterdir()) if (d / "meta.json").exists() and (d / "patch.diff").exists()] if base.exists() else []
+
+
+def run_refactor(ref_dir: Path, prop: str) -> dict:
+    meta = json.loads((ref_dir / "meta.json").read_text())
+    # "undecided" names the checks that are allowed to stop with ANALYSIS-ERROR on this restructuring (each with
+    # the reason recorded in the meta file); a VIOLATION is wrong for every check
+    expect = "silent-or-undecided" if prop in meta.get("undecided", {}) else "silent"
+    tmp = Path(tempfile.mkdtemp(prefix="sa-refactor-"))
+    try:
+        _copy_tree(tmp)
+        p = subprocess.run(["git", "apply", "--unsafe-paths", f"--directory={tmp}", str(ref_dir / "patch.diff")], cwd="/", capture_output=True, text=True)
+        if p.returncode != 0:
+            return {"id": "refactor:" + ref_dir.name, "status": "skipped", "why": "patch no longer applies"}
+        env = dict(os.environ)
+        env["SA_REPO"] = str(tmp)
+        env["SA_NO_EVIDENCE"] = "1"
+        r = subprocess.run([sys.executable, "-m", "sa", prop, "--tier", "quick"], cwd=str(VERIF), env=env, capture_output=True, text=True, timeout=900)
+        out = r.stdout + r.stderr
+        ok = r.returncode == 0 or (expect == "silent-or-undecided" and r.returncode == 2 and "VIOLATION property=" not in out)
+        return {"id": "refactor:" + ref_dir.name, "status": "ok" if ok else "WRONG", "expect": expect, "rc": r.returncode, "tail": out.strip().splitlines()[-3:] if not ok else []}
+    finally:
+        shutil.rmtree(tmp, ignore_errors=True)
+
+
 def run(check: Check) -> None:
     prop = check.prop
     entries = [e for e in CATALOGUE if prop in e[1]]
     seeds = seeded_variants(prop)
+    refactors = refactor_variants()
     results: list[dict] = []
-    with ThreadPoolExecutor(max_workers=min(16, max(1, len(entries) + len(seeds) + 1))) as ex:
-        futs = [ex.submit(run_variant, e, prop) for e in entries] + [ex.submit(run_seed, s, prop) for s in seeds] + [ex.submit(run_reformat, prop)]
+    with ThreadPoolExecutor(max_workers=min(16, max(1, len(entries) + len(seeds) + len(refactors) + 1))) as ex:
+        futs = [ex.submit(run_variant, e, prop) for e in entries] + [ex.submit(run_seed, s, prop) for s in seeds] + [ex.submit(run_refactor, d, prop) for d in refactors] + [ex.submit(run_reformat, prop)]
         for f in futs:
             results.append(f.result())
     ran = [r for r in results if r["status"] != "skipped"]
@@ -276,7 +305,8 @@ def run(check: Check) -> None:
     wrong = [r for r in results if r["status"] == "WRONG"]
     check.count("selftest_variants", len(ran))
     check.count("selftest_fire", sum(1 for r in ran if r.get("expect") == "fire"))
-    check.count("selftest_silent", sum(1 for r in ran if r.get("expect") == "silent"))
+    check.count("selftest_silent", sum(1 for r in ran if r.get("expect") in ("silent", "silent-or-undecided")))
+    check.count("selftest_refactors", sum(1 for r in ran if r["id"].startswith("refactor:")))
     check.count("selftest_skipped", len(skipped))
     check.notes.append("self-test kill matrix: " + ", ".join(f"{r['id']}={r['status']}" for r in results))
     for r in ran[:6]:
